@@ -15,7 +15,7 @@ META = {
                    'are <= theta*s0 and the kept ones > theta*s0, every SVD argument is the unfolding of the carried factor times the '
                    'core, in ortho() all truncation happens in the right sweep after a complete untruncated left sweep, in the array '
                    'constructor the left factors are the U of the SVDs; (exactness) threshold 0 / unbounded rank reproduces the array '
-                   'for every valid factorisation (cut-point chain). Concrete replays additionally evaluate the property\'s own inequalities on the unmodified code: ||x - TT(x)||_F^2 <= sum over the unfoldings of the discarded squared singular values (TT-SVD bound) and, with a threshold only, <= (threshold ||x||)^2 times the number of discarded directions.',
+                   'for every valid factorisation (cut-point chain). Concrete replays additionally evaluate the property\'s own inequalities on the unmodified code: ||x - TT(x)||_F^2 <= sum over the unfoldings of the discarded squared singular values (TT-SVD bound) and, with a threshold only, <= (threshold ||x||)^2 times the number of discarded directions. A per-bond cap list handed to ortho / ortho_left / ortho_right comes back unchanged.',
     'bounds': {'quick': 'TT(array): array shapes (m1..md,n1..nd) of order 1-3 with sizes {1,2,3}, <= 16 entries; ortho*: orders 2-3, sizes {1,2}, '
                         'ranks {2,3}; max_rank in {1,2,inf} and per-bond lists; theta symbolic or 0; real and complex',
                'thorough': 'same plus order 4 and arrays up to 36 entries'},
